@@ -65,6 +65,39 @@ m("b08_external_public_key_asked_twice", [("src/opaque.rs",
         // ask again and keep the second answer (an HSM front-end might re-validate)
         let server_s_pk = if true { server_s_sk.public_key()? } else { server_s_pk };
 ''')])
+m("b16_static_key_by_rejection_sampling", [("src/opaque.rs",
+'''        let keypair = KeyPair::generate_random::<CS::OprfCs, _>(rng);
+        Self::new_with_key(rng, keypair)''','''        // long-term key sampled directly (rejection sampling) instead of derived from a seed
+        let sk = <CS::KeGroup as KeGroup>::random_sk(rng);
+        let keypair = KeyPair::from_private_key_slice(&<CS::KeGroup as KeGroup>::serialize_sk(sk))
+            .expect("freshly sampled key is valid");
+        Self::new_with_key(rng, keypair)''')])
+m("b12_fake_record_draws_reordered", [("src/opaque.rs",
+'''        let record = match password_file {
+            Some(x) => x,
+            None => ServerRegistration::dummy(rng, server_setup),
+        };
+
+        let client_s_pk = record.0.client_s_pk.clone();
+        let context = context.unwrap_or(&[]);
+        let server_s_sk = server_setup.keypair.private();
+        let server_s_pk = server_s_sk.public_key()?;
+
+        let mut masking_nonce = GenericArray::<_, NonceLen>::default();
+        rng.fill_bytes(&mut masking_nonce);
+''','''        let mut masking_nonce = GenericArray::<_, NonceLen>::default();
+        rng.fill_bytes(&mut masking_nonce);
+
+        let record = match password_file {
+            Some(x) => x,
+            None => ServerRegistration::dummy(rng, server_setup),
+        };
+
+        let client_s_pk = record.0.client_s_pk.clone();
+        let context = context.unwrap_or(&[]);
+        let server_s_sk = server_setup.keypair.private();
+        let server_s_pk = server_s_sk.public_key()?;
+''')])
 def main():
     os.makedirs(OUT, exist_ok=True)
     w=tempfile.mkdtemp(prefix="vmk.")
